@@ -76,26 +76,27 @@ type Attempt struct {
 // ---------------------------------------------------------------- nodes
 
 type Node struct {
-	w                    *World
-	Name                 string
-	IP                   net.IP
-	Addr                 string // ip:9042
-	DC                   string
-	HostID               primitive.UUID
-	Up                   bool // accepts connections
-	Blackhole            bool // dials hang, traffic is swallowed
-	Stalled              bool // receives requests but never answers (not even heartbeats)
-	FailPeersQueries     int  // the next so many system.peers queries are answered with an error (system.local works): a refresh that fails half-way
-	FailControlQueries   bool // answers system.local / system.peers with an error (a contact point that cannot serve)
-	InCluster            bool // listed in system tables of the other nodes
-	MaxVersion           primitive.ProtocolVersion
-	DSE                  bool
-	Prepared             map[string]string // hex id -> query
-	Conns                []*BackendConn
-	Keyspaces            map[string]bool // keyspaces that exist (lower-cased, unquoted form)
-	BusyKeyspaces        map[string]bool // keyspaces for which a USE is answered OVERLOADED
-	SilentControlQueries int             // that many system.local / system.peers queries get no answer at all
-	Restarts             int
+	w                     *World
+	Name                  string
+	IP                    net.IP
+	Addr                  string // ip:9042
+	DC                    string
+	HostID                primitive.UUID
+	Up                    bool // accepts connections
+	Blackhole             bool // dials hang, traffic is swallowed
+	Stalled               bool // receives requests but never answers (not even heartbeats)
+	FailPeersQueries      int  // the next so many system.peers queries are answered with an error (system.local works): a refresh that fails half-way
+	FailControlQueries    bool // answers system.local / system.peers with an error (a contact point that cannot serve)
+	InCluster             bool // listed in system tables of the other nodes
+	MaxVersion            primitive.ProtocolVersion
+	DSE                   bool
+	Prepared              map[string]string // hex id -> query
+	Conns                 []*BackendConn
+	Keyspaces             map[string]bool // keyspaces that exist (lower-cased, unquoted form)
+	BusyKeyspaces         map[string]bool // keyspaces for which a USE is answered OVERLOADED
+	SilentControlQueries  int             // that many system.local / system.peers queries get no answer at all
+	DropNewConnsAtStartup int             // that many new connections are reset when their STARTUP arrives
+	Restarts              int
 	// RespCompress: 0 follow the request's connection setting for every frame, 1 never, 2 per-frame choice
 	RespCompress  int
 	AuthUser      string // if set, PasswordAuthenticator with this user/password
@@ -363,6 +364,14 @@ func (c *BackendConn) handle(raw []byte) {
 		if c.Started {
 			w.Stat("backend.second_startup")
 		}
+		if n.DropNewConnsAtStartup > 0 {
+			// a connection that is lost while it is being set up (a transient failure of that one
+			// connection: its siblings are served)
+			n.DropNewConnsAtStartup--
+			w.Stat("fault.new-connection-lost-at-startup")
+			c.Reset("fault: new connection lost at STARTUP")
+			return
+		}
 		c.Version = hdr.Version
 		c.Started = true
 		if comp, ok := msg.Options["COMPRESSION"]; ok {
@@ -608,6 +617,16 @@ func (c *BackendConn) tokenised(raw []byte, frm *frame.Frame, msg message.Messag
 	if out.Kind == OutOK {
 		w.Stat("backend.ok")
 		var res message.Message = tokenRows(tok, c.Version)
+		if w.Cfg.BigRowsPerMille > 0 && w.C.Choose("bigrows?", 1000) < w.Cfg.BigRowsPerMille {
+			// a result of some size: further rows of padding behind the row that holds the token
+			rr := res.(*message.RowsResult)
+			pad := make([]byte, []int{3000, 9000, 20000, 70000}[w.C.Choose("bigrows", 4)])
+			for i := range pad {
+				pad[i] = byte('a' + i%23)
+			}
+			rr.Data = append(rr.Data, message.Row{pad})
+			w.Stat("backend.ok_with_padding_rows")
+		}
 		if w.ResultFor != nil {
 			if r := w.ResultFor(att); r != nil {
 				res = r
